@@ -392,6 +392,85 @@ class TableRun:
                 reach = self.check_lookup(order, accepted)
                 if first: self.witnesses(order, reach)
                 first = False
+            if self.which == 'C06':
+                self.check_iter(order, accepted, first)
+                first = False
+
+    # ------------------------------------------------------------------ C06: the version-filtered iterator behind the OpenAPI document
+    def render(self, e):
+        return '/' + '/'.join(n if k == 'lit' else '{%s}' % n for k, n in e.tmpl)
+
+    def check_iter(self, order, accepted, do_witness):
+        from mirsym import refeval
+        from mirsym.core import Cell, Ref
+        chk, ex = self.chk, self.ex
+        for versioned in (True, False):
+            dv_ = V('doc_v') if versioned else None
+            def h(ex):
+                rc, rej, msg = self.R.build(ex, self.eps, order)
+                if rej is not None: return None
+                ver = ex.some(Ref(Cell(dv_.adt()))) if dv_ else ex.none()
+                it = Cell(ex.call_fn(self.R.F_endpoints, [Ref(rc), ver]))
+                items = []
+                for _ in range(len(self.eps) + 2):
+                    r = ex.call_fn(self.R.F_iter_next, [Ref(it)])
+                    if r.discr == 0: return items
+                    t = ex.payload(r)
+                    items.append((dv(t.items[0].v), dv(t.items[1].v), dv(ex.field(dv(t.items[2].v), 'operation_id').v)))
+                raise Unsupported('iterator did not end')
+            assume = self.assume + (dv_.wf() if dv_ else [])
+            outs = ex.explore(h, assume)
+            chk.paths += len(outs)
+            for pc, (kind, got) in outs:
+                if kind == 'panic':
+                    m = chk.prove(self.name(f'iter-no-panic/{order}'), pc, z3.BoolVal(True), extra=assume)
+                    self.report_iter(m, order, dv_, f'endpoint iterator panicked: {got}')
+                    continue
+                if got is None: continue
+                def spec(d):
+                    live = [e for e in self.eps if d(zbool(e.contains(dv_)))]
+                    live.sort(key=lambda e: (tuple(n for k, n in e.tmpl), e.method.upper()))
+                    return [(self.render(e), e.method.upper(), e.id) for e in live]
+                def then(pc2, want, got=got):
+                    norm = [(p.replace(':.*}', '}'), m_, i) for p, m_, i in got]
+                    if dv_ is None:
+                        # the document is always generated for Some(version); without a version every endpoint is listed and
+                        # several ranges of one (path, method) keep their registration order: compared as a multiset
+                        norm, want = sorted(norm), sorted(want)
+                    m = chk.prove(self.name(f'iter-lists-exactly-endpoints-at-version/{order}/{"v" if dv_ else "none"}'), pc2, z3.BoolVal(norm != want), extra=assume)
+                    self.report_iter(m, order, dv_, f'iterator yields {got}, expected {want}')
+                refeval.under(list(pc) + assume, spec, then, Inconclusive, max_depth=12)
+            if do_witness and versioned:
+                # translator validation + the document itself: native iterator and ApiDescription::openapi at a model's version
+                m = chk.witness(self.name(f'iter-witness/{order}'), assume, z3.Or([z3.And(*pc) if pc else z3.BoolVal(True) for pc, (k, g) in outs if k == 'ok' and g is not None] or [z3.BoolVal(False)]))
+                c = concretise(m, self.all_versions + [dv_])
+                case = {'op': 'router', 'endpoints': [e.json(c) for e in self.eps], 'order': list(order), 'requests': [], 'iter_versions': [c[dv_.name], None]}
+                r = replay([case])[0]
+                chk.replayed += 1
+                ev = lambda t: z3.is_true(m.eval(zbool(t), model_completion=True))
+                for ver_, natl in zip([dv_, None], r['iters']):
+                    live = [e for e in self.eps if (ver_ is None or ev(e.contains(ver_)))]
+                    live.sort(key=lambda e: (tuple(n for k, n in e.tmpl), e.method.upper()))
+                    want = [[self.render(e), e.method.upper(), e.id] for e in live]
+                    got_n = [[p.replace(':.*}', '}'), m_, i] for p, m_, i in natl]
+                    if ver_ is None: got_n, want = sorted(got_n), sorted(want)
+                    if got_n != want:
+                        raise Inconclusive(f'encoding-mismatch: native iterator for {case} yields {natl}, model expects {want}')
+
+    def report_iter(self, m, order, dv_, what):
+        if m is None: return
+        c = concretise(m, self.all_versions + ([dv_] if dv_ else []))
+        case = {'op': 'router', 'endpoints': [e.json(c) for e in self.eps], 'order': list(order), 'requests': [], 'iter_versions': [c[dv_.name] if dv_ else None]}
+        r = replay([case])[0]
+        all_reg = len(r['registered']) == len(order) and all(x['ok'] for x in r['registered'])
+        ev = lambda t: z3.is_true(m.eval(zbool(t), model_completion=True))
+        live = [e for e in self.eps if (dv_ is None or ev(e.contains(dv_)))]
+        live.sort(key=lambda e: (tuple(n for k, n in e.tmpl), e.method.upper()))
+        want = [[self.render(e), e.method.upper(), e.id] for e in live]
+        nat = [[p.replace(':.*}', '}'), m_, i] for p, m_, i in r['iters'][0]] if r['iters'] else None
+        if dv_ is None and nat is not None: nat, want = sorted(nat), sorted(want)
+        self.chk.counterexample(f'{what}; table {[self.spec[i] for i in order]} versions {[e.json(c)["versions"] for e in self.eps]} at version '
+                                f'{c.get(dv_.name) if dv_ else None}: native iterator {nat}', case, all_reg and nat != want, role='iter:' + self.shape())
 
     def witnesses(self, order, reach):
         """vacuity guard + translator validation: one model per outcome class, replayed on the real router"""
@@ -459,7 +538,7 @@ def _worker(idx):
     return out
 
 
-def run(which, tier, replay_file=None):
+def run(which, tier, replay_file=None, before_finish=None):
     chk = Check(which, tier)
     ex = chk.load(vermodel.MODELS + RL.ROUTER_MODELS + BASE_MODELS)
     ex.const_models.append(httpmodel.const_model)
@@ -487,6 +566,7 @@ def run(which, tier, replay_file=None):
     slow.sort(key=lambda x: -x[0])
     chk.extra['slowest_tables'] = slow[:5]
     if os.environ.get('VERIF_DEBUG'): print('slowest tables:', slow[:8])
+    if before_finish is not None: before_finish(chk)
     if incon:
         rc = chk.finish('inconclusive run')
         if rc == 1: 
